@@ -259,6 +259,19 @@ def _check_tracking_write(ev, attr, idx_attr, op):
         return None
     v = _resolve(ev, st.value)
     if v is None or v[1][-1:] != ["end_time"]:
+        # an end time computed afresh (`start + operation.duration` in a bookkeeping helper): whether that start is
+        # the one the scheduled operation was built with needs the two computations compared - not decided here
+        x = st.value
+        if isinstance(x, ast.Name):
+            from .common import _single_def
+
+            d = _single_def(ev.frame.fi, x.id)
+            x = d if d is not None else x
+        if isinstance(x, ast.BinOp) and isinstance(x.op, ast.Add) and any(isinstance(s_, ast.Attribute) and s_.attr == "duration" for s_ in (x.left, x.right)):
+            raise AnalysisError(
+                f"{ev.loc}: `{attr}` is set to `{ast.unparse(x)}`, an end time computed afresh instead of the scheduled operation's "
+                "end_time; whether the two agree depends on the start time being computed identically in both places - not decided"
+            )
         return f"`{attr}` is set to `{ast.unparse(st.value)}`, not the scheduled operation's end time"
     if v[0] != r[0]:
         return f"`{attr}`: index and value come from different objects"
